@@ -218,6 +218,10 @@ def run_chunk(pid, idx, cases, workdir, timeout):
         k = len(impl)
         oracle.append((k, "process-died: " + err.replace("\n", " ")[:300]))
         impl = impl + ["CRASH"] + ["NOT-RUN"] * (len(cases) - k - 1)
+    if len(impl) != len(cases):
+        # never let the streams go out of step: a short or long output is a harness error of its own
+        err = (err or "") + " hx run produced %d lines for %d cases" % (len(impl), len(cases))
+        impl = (impl + ["NOT-RUN"] * len(cases))[:len(cases)]
     model = None
     if os.path.exists(modeldriver(pid)):
         mi = "\n".join(c + "\t" + o for c, o in zip(cases, impl)) + "\n"
@@ -229,7 +233,7 @@ def run_chunk(pid, idx, cases, workdir, timeout):
                 model.pop()
             if p.returncode != 0 or len(model) != len(cases):
                 err = (err or "") + " modeldriver rc=%s lines=%d/%d %s" % (p.returncode, len(model), len(cases), p.stderr[-500:])
-                model = model + ["MODEL-NO-OUTPUT"] * (len(cases) - len(model))
+                model = (model + ["MODEL-NO-OUTPUT"] * len(cases))[:len(cases)]
         except subprocess.TimeoutExpired:
             err = (err or "") + " modeldriver timed out"
             model = ["MODEL-TIMEOUT"] * len(cases)
